@@ -647,9 +647,9 @@ fn sop_pair(op: SOp, tbl: &'static str) -> (Result<String, String>, String) {
         SOp::DropColumnA => (catch(|| Table::alter().table(a(tbl)).drop_column(a("a")).to_string(SqliteQueryBuilder)), format!("ALTER TABLE {} DROP COLUMN \"a\"", q(tbl))),
         SOp::DropColumnB => (catch(|| Table::alter().table(a(tbl)).drop_column(a("b")).to_string(SqliteQueryBuilder)), format!("ALTER TABLE {} DROP COLUMN \"b\"", q(tbl))),
         SOp::RenameTable => (catch(|| Table::rename().table(a(tbl), a("t9")).to_string(SqliteQueryBuilder)), format!("ALTER TABLE {} RENAME TO \"t9\"", q(tbl))),
-        SOp::CreateIndexA => (catch(|| Index::create().name("i1").table(a(tbl)).col(a("a")).to_string(SqliteQueryBuilder)), format!("CREATE INDEX \"i1\" ON {} (\"a\")", q(tbl))),
-        SOp::CreateUniqueIndexB => (catch(|| Index::create().unique().name("i2").table(a(tbl)).col(a("b")).to_string(SqliteQueryBuilder)), format!("CREATE UNIQUE INDEX \"i2\" ON {} (\"b\")", q(tbl))),
-        SOp::CreateIndexAIfNotExists => (catch(|| Index::create().if_not_exists().name("i1").table(a(tbl)).col(a("a")).to_string(SqliteQueryBuilder)), format!("CREATE INDEX IF NOT EXISTS \"i1\" ON {} (\"a\")", q(tbl))),
+        SOp::CreateIndexA => (catch(|| Index::create().name("i\"1").table(a(tbl)).col(a("a")).to_string(SqliteQueryBuilder)), format!("CREATE INDEX \"i\"\"1\" ON {} (\"a\")", q(tbl))),
+        SOp::CreateUniqueIndexB => (catch(|| Index::create().unique().name("i 2\"").table(a(tbl)).col(a("b")).to_string(SqliteQueryBuilder)), format!("CREATE UNIQUE INDEX \"i 2\"\"\" ON {} (\"b\")", q(tbl))),
+        SOp::CreateIndexAIfNotExists => (catch(|| Index::create().if_not_exists().name("i\"1").table(a(tbl)).col(a("a")).to_string(SqliteQueryBuilder)), format!("CREATE INDEX IF NOT EXISTS \"i\"\"1\" ON {} (\"a\")", q(tbl))),
         SOp::CreatePartialIndexA => (catch(|| Index::create().name("i3").table(a(tbl)).col(a("a")).and_where(Expr::col(a("a")).gt(5)).to_string(SqliteQueryBuilder)), format!("CREATE INDEX \"i3\" ON {} (\"a\") WHERE \"a\" > 5", q(tbl))),
         SOp::CreateUniquePartialIndexTwoPredicates => (
             catch(|| Index::create().unique().name("i5").table(a(tbl)).col(a("b")).and_where(Expr::col(a("a")).gt(5)).and_where(Expr::col(a("a")).lt(100)).to_string(SqliteQueryBuilder)),
@@ -660,8 +660,8 @@ fn sop_pair(op: SOp, tbl: &'static str) -> (Result<String, String>, String) {
             format!("CREATE INDEX \"i6\" ON {} (\"a\") WHERE ((\"a\" < 2) OR (\"b\" IS NULL)) AND (\"a\" <> 7)", q(tbl)),
         ),
         SOp::CreateIndexADescB => (catch(|| Index::create().name("i4").table(a(tbl)).col((a("a"), IndexOrder::Desc)).col((a("b"), IndexOrder::Asc)).to_string(SqliteQueryBuilder)), format!("CREATE INDEX \"i4\" ON {} (\"a\" DESC, \"b\" ASC)", q(tbl))),
-        SOp::DropIndexI1 => (catch(|| Index::drop().name("i1").table(a(tbl)).to_string(SqliteQueryBuilder)), "DROP INDEX \"i1\"".into()),
-        SOp::DropIndexI2IfExists => (catch(|| Index::drop().if_exists().name("i2").table(a(tbl)).to_string(SqliteQueryBuilder)), "DROP INDEX IF EXISTS \"i2\"".into()),
+        SOp::DropIndexI1 => (catch(|| Index::drop().name("i\"1").table(a(tbl)).to_string(SqliteQueryBuilder)), "DROP INDEX \"i\"\"1\"".into()),
+        SOp::DropIndexI2IfExists => (catch(|| Index::drop().if_exists().name("i 2\"").table(a(tbl)).to_string(SqliteQueryBuilder)), "DROP INDEX IF EXISTS \"i 2\"\"\"".into()),
         SOp::DropTable => (catch(|| Table::drop().table(a(tbl)).to_string(SqliteQueryBuilder)), format!("DROP TABLE {}", q(tbl))),
         SOp::DropTableIfExists => (catch(|| Table::drop().if_exists().table(a(tbl)).to_string(SqliteQueryBuilder)), format!("DROP TABLE IF EXISTS {}", q(tbl))),
     }
